@@ -508,6 +508,66 @@ def check_reuse(tier, k, n, res):
                 res.outcome(('reuse', fi, pi))
 
 
+LABEL_PROGRAMS = [
+    b'for i=1,2 do goto c ::c:: end for j=1,2 do goto c ::c:: end\n',
+    b'for i=1,2 do\n if (i) goto continue\n x=1\n ::continue::\nend\nwhile a do\n goto continue\n ::continue::\nend\n',
+    b'if a then ::x:: b=1 else ::x:: b=2 end\n',
+    b'if a then ::x:: elseif b then ::x:: else ::x:: end\n',
+    b'do ::l:: end do ::l:: end do ::l:: end\n',
+    b'function f() ::l:: goto l end ::l:: goto l\n',
+    b'function f() ::l:: end function g() ::l:: end local function h() ::l:: end\n',
+    b'while a do ::top:: break end repeat ::top:: until b\n',
+    b'::a:: do ::b:: end ::c:: do ::b:: end\n',
+    b'x=function() ::l:: end y=function() ::l:: end\n',
+    b'for k,v in pairs(t) do ::n:: end for k,v in pairs(t) do ::n:: end\n',
+    b'do do ::deep:: end end do do ::deep:: end end\n',
+]
+
+
+def check_label_programs(res):
+    """The same label name in blocks that cannot see each other (sibling blocks, branches of one if, different
+    functions) is valid Lua 5.2: the program parses to its end and the tree holds every label and goto."""
+    lua = lua_mod()
+    from pico8.lua import parser
+    for src in LABEL_PROGRAMS:
+        res.evaluations += 1
+        res.nontriv(('labels', src))
+        case = {'labels': True, 'src': src}
+        try:
+            obj = lua.Lua.from_lines([src], version=core.lua_version(src))
+        except Exception as e:
+            res.violation('C08|labels|parse-raise|%s' % type(e).__name__, 'valid program %r (a label name used again in a block that '
+                          'cannot see the first): %s' % (src, e), case)
+            continue
+        sig = [t for t in obj.tokens if type(t).__name__ not in ('TokSpace', 'TokNewline', 'TokComment')]
+        rest = obj.tokens[obj.root.end_pos:]
+        if any(type(t).__name__ not in ('TokSpace', 'TokNewline', 'TokComment') for t in rest):
+            res.violation('C08|labels|not-consumed', '%r: parser stopped at token %d of %d' % (src, obj.root.end_pos, len(obj.tokens)), case)
+            continue
+        count = {'StatLabel': 0, 'StatGoto': 0}
+
+        def walk(n):
+            if isinstance(n, parser.Node):
+                if type(n).__name__ in count:
+                    count[type(n).__name__] += 1
+                for f in n._fields:
+                    walk(getattr(n, f))
+            elif isinstance(n, (list, tuple)):
+                for x in n:
+                    walk(x)
+        walk(obj.root)
+        want = {'StatLabel': sum(1 for t in sig if type(t).__name__ == 'TokLabel'),
+                'StatGoto': sum(1 for t in sig if t._data == b'goto')}
+        if count != want:
+            res.violation('C08|labels|tree', '%r: tree has %r, the program has %r' % (src, count, want), case)
+            continue
+        echo = b''.join(obj.to_lines(writer_cls=lua.LuaASTEchoWriter))
+        if echo != src:
+            res.violation('C08|labels|tree-echo', '%r: walking the tree gives %r' % (src, echo), case)
+            continue
+        res.outcome(('labels',))
+
+
 BAD_PROGRAMS = [b'if (a) b=\n', b'if (a) foo(1,\n', b'if (a) b=1 else c=\n', b'?1,\n', b'do x=\n', b'function f(\n', b'x=(1\n',
                 b'if a then b=1\n', b'x={1,\n', b'if (a) ?\nend\n', b'for i=1 do end\n', b'repeat x=1\n']
 
@@ -639,6 +699,8 @@ def run_shard(item):
         res.sample({'family': 'printast-cli', 'src': b'a = b\n'})
         return res
     if item[0] == 'reuse':
+        if item[4] == 0:
+            check_label_programs(res)
         check_parser_reuse(item[2], item[4], item[5], res)
         check_reuse(item[2], item[4], item[5], res)
         res.sample({'family': 'reuse', 'first': [b'-- c\n'], 'second': b'-- t\nx=1\n'})
@@ -670,6 +732,9 @@ def run_shard(item):
 def replay(case):
     """Re-parse the recorded source; ground truth is re-derived by finding the program in its family."""
     res = ShardResult()
+    if 'labels' in case:
+        check_label_programs(res)
+        return [(s, v[0]) for s, v in res.violations.items()]
     if 'parser_reuse' in case:
         for k in range(8):
             check_parser_reuse('quick', k, 8, res)
